@@ -3,8 +3,9 @@ CONSTANTS Vars <- VarsXY
  Kinds <- KindsC16
  LitIdx <- LitsAll
  Imports <- NoImports
+ Configs <- ConfigsNow
  Shape = "free"
  Emit = TRUE
 SPECIFICATION Spec
-INVARIANTS HistoryOK AlgoRefinesPython FoldOnly Fresh WellFormedHeap EmitCase
+INVARIANTS HistoryOK AlgoRefinesPython FoldOnly Fresh WellFormedHeap SortIsStable EmitCase
 CHECK_DEADLOCK FALSE
